@@ -113,7 +113,7 @@ def parse_vc(path):
         elif head == '@decreases':
             cur.clauses.append(('decreases', 'decreases', rest.strip()))
         elif head == '@loop':
-            mm = re.match(r'(\d+)\s+(invariant|decreases|iter|ensures|invariant_except_break)\s*(.*)$', rest, re.S)
+            mm = re.match(r'(\d+)\s+(invariant_except_break|invariant|decreases|iter|ensures)\s*(.*)$', rest, re.S)
             if not mm:
                 raise Unsupported("%s: bad @loop: %s" % (path, rest[:60]))
             k = int(mm.group(1))
@@ -354,6 +354,39 @@ def weave_fn(fn_text, contract, unit, log, features_on, in_trait_impl=False, rea
         else:
             text = text[:fm6.end()] + '<%s: %s>' % (gname, bound) + text[fm6.end():]
         log.append(dict(rule='R6', fn=name, what='&dyn %s -> generic &%s' % (bound, gname)))
+    # R22: `for x in <call chain>.data.iter() {` -> `let verif_tmpK = <call chain>; for x in verif_tmpK.data.iter() {`
+    # (Verus' for-loop expansion drops the temporary too early; rustc keeps it alive for the whole loop)
+    k22 = 0
+    while True:
+        src22 = Source(name, text)
+        bo = text.find('{')
+        if bo < 0:
+            break
+        done = True
+        for (kw_start, lopen, lclose, kw) in src22.loops(bo + 1, match_brace(text, src22.mask, bo)):
+            if kw != 'for':
+                continue
+            im = None
+            for mm in re.finditer(r'\bin\b', text[kw_start:lopen]):
+                if src22.mask[kw_start + mm.start()]:
+                    im = mm
+                    break
+            if not im:
+                continue
+            es = kw_start + im.end()
+            expr = text[es:lopen]
+            em = re.match(r'^(\s*)(.*?)\.data\.iter\(\)\s*$', expr, re.S)
+            if em and '(' in em.group(2) and not em.group(2).strip().startswith('verif_tmp'):
+                tmp = 'verif_tmp%d' % k22
+                k22 += 1
+                lm = re.search(r"'\w+\s*:\s*$", text[:kw_start])
+                ins_at = lm.start() if lm else kw_start
+                text = (text[:ins_at] + 'let %s = %s;\n' % (tmp, em.group(2).strip()) + text[ins_at:es] + ' ' + tmp + '.data.iter() ' + text[lopen:])
+                log.append(dict(rule='R22', fn=name, what='iterated temporary bound to %s: %s' % (tmp, ' '.join(em.group(2).split())[:100])))
+                done = False
+                break
+        if done:
+            break
     mask = code_mask(text)
     # header end
     depth = 0
@@ -646,6 +679,17 @@ def build_unit(unit_dir, repo, reach=False):
         for rel in U['lemmas']:
             add_file('spec', rel)
 
+    # R7: one-line accessors inlined at call sites, after checking that the accessor still has exactly that body
+    inline_acc = []
+    for acc in U.get('inline_accessors', []):
+        for chk in acc['check']:
+            csrc = load_sources(repo, srcs, chk['file'])
+            (cs, ch, ce) = csrc.find(chk['path'])
+            body = ' '.join(csrc.text[ch + 1:ce - 1].split())
+            if body != acc['body']:
+                raise Unsupported("R7: accessor %s no longer has body `%s` (found `%s`)" % (' :: '.join(chk['path']), acc['body'], body[:80]))
+        inline_acc.append(acc)
+
     def emit_fn(src, path, s, h, e, group_serves, in_trait_impl, mono=None):
         key = (src.path, tuple(path))
         c = contracts.get(key)
@@ -682,6 +726,11 @@ def build_unit(unit_dir, repo, reach=False):
                     raise Unsupported("%s: cfg feature %s not configured" % (path[-1], feat))
                 if on == bool(am.group(1)):
                     raise Unsupported("%s: function is compiled out in the verified configuration" % path[-1])
+        for acc in inline_acc:
+            n = fn_text.count(acc['call'])
+            if n:
+                fn_text = fn_text.replace(acc['call'], acc['replacement'])
+                G.log.append(dict(rule='R7', fn=path[-1], what='%s -> %s (x%d; callee body checked to be `%s`)' % (acc['call'], acc['replacement'], n, acc['body'])))
         sha = hashlib.sha256(fn_text.encode()).hexdigest()
         name = path[-1].split(' ', 1)[1]
         serves = (c.serves if c and c.serves else group_serves) or U['serves']
